@@ -1,3 +1,4 @@
+import pathlib
 """AST-level seeded variants for the thorough-tier discrimination self-test.
 
 A variant is described by (id, module, function-or-None, from-source, to-source[, nth]).  The sub-expression / statement of
@@ -133,3 +134,39 @@ def rename_local(prog, modname, func, old, new):
         return None
     _Rename(old, new).visit(f)
     return {mname: tree}
+
+
+def patch_overrides(prog, patchfile):
+    """module overrides {module name: new source} obtained by applying a unified diff (paths a/src/pyoma2/...) to a scratch copy of the
+    analysed tree; None if the patch does not apply.  The scratch copy lives in a temporary directory that is removed before returning."""
+    import os
+    import re
+    import shutil
+    import subprocess
+    import tempfile
+    root = pathlib.Path(prog.root)
+    text = pathlib.Path(patchfile).read_text()
+    files = sorted(set(re.findall(r"^\+\+\+ b/(src/pyoma2/\S+)", text, flags=re.M)))
+    if not files:
+        return None
+    tmp = tempfile.mkdtemp(prefix="sa-variant.")
+    try:
+        for f in files:
+            relp = pathlib.Path(f).relative_to("src/pyoma2")
+            dst = pathlib.Path(tmp) / f
+            dst.parent.mkdir(parents=True, exist_ok=True)
+            if (root / relp).exists():
+                shutil.copy(root / relp, dst)
+        r = subprocess.run(["patch", "-p1", "-s", "-f", "-i", str(pathlib.Path(patchfile).resolve())], cwd=tmp, capture_output=True, text=True)
+        if r.returncode != 0:
+            return None
+        ov = {}
+        for f in files:
+            relp = pathlib.Path(f).relative_to("src/pyoma2")
+            parts = list(relp.with_suffix("").parts)
+            if parts and parts[-1] == "__init__":
+                parts = parts[:-1]
+            ov[".".join(["pyoma2"] + parts)] = (pathlib.Path(tmp) / f).read_text()
+        return ov
+    finally:
+        shutil.rmtree(tmp, ignore_errors=True)
